@@ -238,11 +238,44 @@ def harness(tier, seed):
         if e > ubn:
             cls = "large-minima" if max(hmin, amin, smin) > 2 else "standard-limits"
             viol.append((f"upper-bound/{cls}", info, f"errors={e} > declared upper bound {ubn}"))
+    # ---- through the objects: instances built with six different limits keep each limit under its own name, and
+    # Errors(instance).evaluate(plan) is the kernel's count for exactly these limits (all bundled instances have the same
+    # limits for home and away streaks)
+    mat4 = np.array(inst4)
+    for (hmin, hmax, amin, amax, smin, smax) in [(1, 3, 1, 2, 1, 6), (1, 2, 1, 3, 0, 4), (2, 4, 1, 3, 1, 5), (1, 3, 2, 2, 2, 6)]:
+        setting = {"home_streak": [hmin, hmax], "away_streak": [amin, amax], "separation": [smin, smax]}
+        try:
+            ti = Instance("gen4", mat4, ["a", "b", "c", "d"], 2, hmin, hmax, amin, amax, smin, smax)
+        except Exception as ex:     # noqa: BLE001
+            viol.append(("instance/raises-on-valid-limits", setting, repr(ex)))
+            continue
+        got_ = (int(ti.home_streak_min), int(ti.home_streak_max), int(ti.away_streak_min), int(ti.away_streak_max),
+                int(ti.separation_min), int(ti.separation_max))
+        if got_ != (hmin, hmax, amin, amax, smin, smax):
+            viol.append(("instance/limits-stored", setting, f"instance reports {got_}"))
+        ob_ = Errors(ti)
+        from moptipyapps.ttp.game_plan import GamePlan
+        for _ in range(150 if tier == "quick" else 2000):
+            y = GamePlan(ti)
+            for d in range(6):
+                y[d, :] = pats[rng.randrange(len(pats))]
+            feas, cnt, cons = spec_eval(np.array(y), hmin, hmax, amin, amax, smin, smax, 2)
+            try:
+                e = int(ob_.evaluate(y))
+            except Exception as ex:     # noqa: BLE001
+                viol.append(("objective/raises", {**setting, "plan": np.array(y).tolist()}, repr(ex)))
+                break
+            evals += 1
+            if (e == 0) != bool(feas) or (cons and e != cnt):
+                viol.append(("objective/value-for-the-instance-limits", {**setting, "plan": np.array(y).tolist()},
+                             f"Errors.evaluate={e}, documented count for these limits {cnt}, feasible={feas}"))
+                break
     seen = set()
     viol = [v for v in viol if not (v[0] in seen or seen.add(v[0]))]
     return {"name": "ttp_errors", "evaluations": evals, "distinct_nontrivial": distinct,
             "rule": "ALL 12^6 = 2985984 day-wise consistent 4-team double round-robin plans x each constraint setting of the "
                     "grid (exhaustive per setting), kernel vs statement-derived executable specification (zero iff feasible, "
                     "value = documented per-rule count, non-negative, declared upper bound); plus random plans in -n..n "
-                    "(inconsistent, byes, self games) for n in {4,6,8}, rounds in {1,2,3}; distinct = enumerated plans",
+                    "(inconsistent, byes, self games) for n in {4,6,8}, rounds in {1,2,3}; instances with six different limits "
+                    "through Errors.evaluate; distinct = enumerated plans",
             "samples": samples, "violations": viol, "exhaustive": True}
